@@ -226,9 +226,15 @@ theorem wireOrderQ_of_WireOK (a : Args) (wf : Option WPoint) (enc : Bytes) (r : 
     have hw : r.wire = w := by simpa using h1
     by_cases hk : (obsOf r).ml = cK
     · obtain ⟨hq, hF⟩ := h4 hk
-      have hq' : wf = some .quit := by rcases hq with hq | hq; · simp at hq
-                                                            · exact hq
-      simp [wireOrderW, hw, hp, hr, hq', hF]
+      have hq' : wf = some .quit := by
+        rcases hq with hq | hq
+        · simp at hq
+        · exact hq
+      have h3' : wireOrderW a enc r.wire (obsOf r) true = true := by
+        have he : (w == fullCmds a ++ enc) = true := by simp [hF]
+        rw [hw]; unfold wireOrderW; rw [hp, hr, he]; simp
+      have hqb : (wf == some WPoint.quit) = true := by simp [hq']
+      rw [h3', hqb]; simp
     · have hk' : ((obsOf r).ml != cK) = true := by simpa using hk
       simp [wireOrderW, hw, hp, hr, hk']
   | true =>
